@@ -8,7 +8,8 @@ use cairo_lang_compiler::db::RootDatabase;
 use cairo_lang_compiler::diagnostics::DiagnosticsReporter;
 use cairo_lang_compiler::project::setup_project;
 use cairo_lang_defs::db::DefsGroup;
-use cairo_lang_defs::ids::NamedLanguageElementId;
+use cairo_lang_defs::ids::{FunctionWithBodyId, NamedLanguageElementId};
+use cairo_lang_semantic::items::function_with_body::FunctionWithBodySemantic;
 use cairo_lang_diagnostics::ToOption;
 use cairo_lang_filesystem::cfg::{Cfg, CfgSet};
 use cairo_lang_filesystem::db::init_dev_corelib;
@@ -148,6 +149,8 @@ pub enum RV {
     Pair(BigInt, BigInt),
     Opt(Option<BigInt>),
     Words(Vec<BigInt>),
+    /// a tuple of integers of one type
+    Tup(Vec<BigInt>),
 }
 #[derive(Clone, Debug, PartialEq, Eq)]
 pub enum RRes {
@@ -171,7 +174,7 @@ impl RRes {
             RRes::Ok(RV::Pair(a, b)) => format!("Ok (RPair {} {})", coq_z(a), coq_z(b)),
             RRes::Ok(RV::Opt(Some(v))) => format!("Ok (ROpt (Some {}))", coq_z(v)),
             RRes::Ok(RV::Opt(None)) => "Ok (ROpt None)".into(),
-            RRes::Ok(RV::Words(w)) => {
+            RRes::Ok(RV::Tup(w)) | RRes::Ok(RV::Words(w)) => {
                 format!("Ok (RWords [{}])", w.iter().map(coq_z).collect::<Vec<_>>().join("; "))
             }
             RRes::Panic(d) => format!("Panic [{}]", d.iter().map(coq_z).collect::<Vec<_>>().join("; ")),
@@ -245,6 +248,13 @@ pub fn decode(shape: &Shape, cells: &[BigInt]) -> Option<RV> {
                 None
             }
         }
+        Shape::Tup(t, n) => {
+            let c = t.n_cells();
+            if cells.len() != c * n {
+                return None;
+            }
+            Some(RV::Tup((0..*n).map(|i| int_of_cells(*t, &cells[i * c..(i + 1) * c])).collect::<Option<Vec<_>>>()?))
+        }
         Shape::Words => {
             if cells.len() != 3 {
                 return None;
@@ -284,6 +294,9 @@ pub fn cv_cells(v: &CV, shape: &Shape) -> Option<Vec<BigInt>> {
             _ => return None,
         },
         (Shape::Opt(_) | Shape::OptNz(_), CV::Enum(1, p)) if **p == CV::Struct(vec![]) => vec![BigInt::one()],
+        (Shape::Tup(t, n), CV::Struct(ms)) if ms.len() == *n => {
+            ms.iter().map(|m| cv_int(*t, m)).collect::<Option<Vec<_>>>()?
+        }
         (Shape::Words, CV::Enum(0, p)) => match &**p {
             CV::Int(lo) => vec![BigInt::zero(), lo.clone()],
             _ => return None,
@@ -305,6 +318,7 @@ pub fn rv_cells(v: &RV) -> Vec<BigInt> {
         RV::Pair(a, b) => vec![a.clone(), b.clone()],
         RV::Opt(Some(v)) => vec![BigInt::zero(), v.clone()],
         RV::Opt(None) => vec![BigInt::one()],
+        RV::Tup(w) => w.clone(),
         RV::Words(w) => {
             let mut o = vec![BigInt::from((w.len() == 2) as u8)];
             o.extend(w.iter().cloned());
@@ -409,6 +423,8 @@ pub fn eval_chunk(dir: &str, idx: usize, cases: Vec<Case>) -> Result<Vec<Done>, 
     // ---------- const items through the semantic db ----------
     let mut c1: BTreeMap<usize, ICres> = BTreeMap::new();
     let mut c2: BTreeMap<usize, ICres> = BTreeMap::new();
+    // diagnostics on the bodies of the const fns (a const fn is validated where it is declared)
+    let mut fn_diags: BTreeMap<String, Vec<String>> = BTreeMap::new();
     {
         let mut db = build_db(false);
         let inputs = setup_project(&mut db, Path::new(&consts_path)).map_err(|e| format!("{e:?}"))?;
@@ -416,6 +432,21 @@ pub fn eval_chunk(dir: &str, idx: usize, cases: Vec<Case>) -> Result<Vec<Done>, 
         let crate_ids = CrateInput::into_crate_ids(db, inputs);
         for cid in crate_ids {
             for m in db.crate_modules(cid) {
+                if let Ok(fids) = db.module_free_functions_ids(*m) {
+                    for fid in fids {
+                        let name = fid.name(db).long(db).to_string();
+                        let mut inner = 0usize;
+                        let ds: Vec<String> = db
+                            .function_body_diagnostics(FunctionWithBodyId::Free(*fid))
+                            .get_all()
+                            .iter()
+                            .map(|d| kind_str(&d.kind, &mut inner))
+                            .collect();
+                        if !ds.is_empty() {
+                            fn_diags.insert(name, ds);
+                        }
+                    }
+                }
                 let Ok(ids) = db.module_constants_ids(*m) else { continue };
                 for c in ids {
                     let name = c.name(db).long(db).to_string();
@@ -440,6 +471,17 @@ pub fn eval_chunk(dir: &str, idx: usize, cases: Vec<Case>) -> Result<Vec<Done>, 
                         c2.insert(k, r);
                     }
                 }
+            }
+        }
+    }
+
+    // a const fn rejected at its declaration: the program does not compile, whatever a call to it
+    // would evaluate to -- the call's answer is "diagnosed"
+    for (k, c) in cases.iter().enumerate() {
+        if let Some((name, _, _)) = &c.constfn {
+            if let (Some(ds), Some(r)) = (fn_diags.get(name), c2.get_mut(&k)) {
+                r.val = None;
+                r.diags.extend(ds.iter().cloned());
             }
         }
     }
